@@ -1,4 +1,5 @@
 """C17 — malformed inputs are rejected at assignment, valid ones stored faithfully"""
+from corr import valid_family
 from oracles import c17 as oracle
 
 GEN = ["Attr"]
@@ -7,6 +8,9 @@ PROPS = ["MagpyVerif.Props.C17"]
 
 
 def run(ctx, model_ok):
+    if ctx.driver_ok:
+        st = valid_family.run_stream(ctx, ctx.scale(400, 20000))
+        ctx.cov["correspondence"] = st
     budget = 3 if len(ctx.broken) else 1
     fails, ost = oracle.sweep(ctx, ctx.scale(1, 12) * budget)
     ctx.failing += fails
@@ -17,8 +21,20 @@ def run(ctx, model_ok):
                        "segment dimension variants, ndarrays of several dtypes) x {setter, constructor}; distinct = (attribute, value) pairs")
     ctx.cov["traces_validated_against_impl"] = ost["c17_assignments"]
     ctx.cov["samples"] = [ost]
-    ctx.cov["not_shown"] = ["scalar validators, orientation, CylinderSegment.dimension, Polyline.vertices, pixel, handedness, field_func: grammar oracle only",
-                            "np.array(dtype=float) accepts numeric strings and None leaves (nan): outside the modelled grammar"]
+    if "correspondence" in ctx.cov:
+        st = ctx.cov["correspondence"]
+        ctx.cov["evaluations"] += st["cases"]
+        ctx.cov["distinct_nontrivial"] += st["distinct"]
+        ctx.cov["traces_validated_against_impl"] += st["cases"]
+        ctx.cov["rule"] += ("; valid stream: every validator command x fixed boundary values, plus random values of the PyVal grammar (None, bool, numpy.bool_, "
+                            "complex, strings, objects, int/float/numpy scalars, nested lists/tuples incl. ragged and empty, ndarrays incl. 0-d and empty) "
+                            "aimed at each validator's documented shape with one defect; distinct = (validator, result, value) triples")
+        ctx.cov["samples"] = st.pop("samples") + ctx.cov["samples"]
+    ctx.cov["not_shown"] = ["orientation, field_func, style arguments: grammar oracle only",
+                            "np.array(dtype=float) is an assumed external function (Model/Validators.lean header): non-integer floats, inf, strings like '1e3' that "
+                            "float() parses, bytes, objects with __float__/__array__, nestings deeper than numpy's axis limit are outside the modelled grammar",
+                            "full-strength 'never a foreign error' is false of the faithful model: complex scalars (TypeError) and check_format_input_vector2 "
+                            "(ValueError) are stated as witnesses, see scalar_foreign_iff_complex / vector2_bad_shape_is_foreign"]
 
 
 def replay(ctx, payload):
